@@ -26,7 +26,8 @@ ASSUMPTIONS = ['the exact counter in this file states the specification; quality
 REQUIRED = {t: ['rule:none', 'rule:middle', 'rule:strict', 'quality_equal_threshold', 'probes_at_C', 'probes_below_C',
                 'probes_above_C', 'filter_calls_monitored', 'accepts_monitored', 'mincount:1', 'mincount:2', 'mincount:3+',
                 'kmers_included', 'kmers_excluded_by_count'] for t in ('quick', 'thorough')}
-REQUIRED['thorough'] = REQUIRED['quick'] + ['large_input_distinct_kmers']
+REQUIRED['quick'] = REQUIRED['quick'] + ['large_input_distinct_kmers']
+REQUIRED['thorough'] = REQUIRED['quick']
 RULES = {'none': 'no-filter', 'middle': 'middle', 'strict': 'strict'}
 
 
@@ -44,10 +45,10 @@ def plan(tier, seed, rng, scale):
     for i in range(n):
         descs.append({'k': rng.choice(G.ALL_K), 'rc': rng.random() < 0.7, 'rule': rng.choice(list(RULES)),
                       'minc': rng.randint(1, 6), 'minq': rng.choice([0, 1, 2, 10, 20, 30, 40]), 'seed': rng.getrandbits(32)})
-    if tier == 'thorough':
-        for i in range(3):
-            descs.append({'k': rng.choice([21, 31, 33]), 'rc': True, 'rule': 'none', 'minc': rng.choice([2, 3]), 'minq': 0,
-                          'seed': rng.getrandbits(32), 'large': True})
+    # inputs with >= 10^5 distinct k-mers for the collision-rate clause (one medium one in quick, three big ones in thorough)
+    for i in range(1 if tier == 'quick' else 3):
+        descs.append({'k': rng.choice([21, 31, 33]), 'rc': True, 'rule': 'none', 'minc': rng.choice([2, 3]), 'minq': 0,
+                      'seed': rng.getrandbits(32), 'large': 60000 if tier == 'quick' else 200000})
     for i, d in enumerate(descs):
         d['chk'] = (i % 8 == 0) and not d.get('large')
     return descs
@@ -92,10 +93,10 @@ def gen_reads(rng, desc):
     k, minc, minq = desc['k'], desc['minc'], desc['minq']
     h = (k - 1) // 2
     large = desc.get('large')
-    Glen = 200000 if large else rng.randint(2 * k, 6 * k)
+    Glen = large if large else rng.randint(2 * k, 6 * k)
     genome = G.rseq(rng, Glen)
     reads = [[], []]
-    cov = 6 if large else rng.randint(2, 12)
+    cov = (6 if large >= 200000 else 3) if large else rng.randint(2, 12)
     RL = 100 if large else None
     nreads = max(2, cov * Glen // (RL or 2 * k))
 
@@ -313,6 +314,7 @@ def run_case(desc, ctx):
                         % (k, rcmode, minc, minq, rule, variant, len(unexplained), unexplained[:3]), detail)
         if variant == 'rel':
             res.count('kmers_included', len(exp))
+            res.count('distinct_kmers_total', len(counts))
             res.count('kmers_excluded_by_count', sum(1 for c in counts.values() if c < minc))
             if rule != 'none' and any((ord(c) - 33) == minq for _s, q in allreads for c in q):
                 res.count('quality_equal_threshold')
@@ -329,3 +331,18 @@ def run_case(desc, ctx):
         res.sample = {'k': k, 'rc': rcmode, 'rule': rule, 'min_count': minc, 'min_qual': minq, 'reads_file1': len(reads[0]),
                       'reads_file2': len(reads[1]), 'first_read': reads[0][0], 'passing_windows': len(pw), 'qualifying_kmers': len(exp)}
     return res
+
+
+def finalize(tier, counters, sets):
+    """Population statistic of the run: Bloom false positives (observed through the hook) per distinct k-mer."""
+    total = counters.get('distinct_kmers_total', 0)
+    fp = counters.get('bloom_false_positives', 0)
+    if total >= 100000 and fp * 1000 >= total:
+        return [{'signature': 'C12:collision-rate', 'what': '%d Bloom false positives among %d distinct k-mers of this run (>= 0.1%%)' % (fp, total),
+                 'detail': None}], []
+    return [], []
+
+
+def coverage_extra(tier, counters, sets):
+    total = counters.get('distinct_kmers_total', 0)
+    return {'bloom_false_positive_rate': (counters.get('bloom_false_positives', 0) / total) if total else None}
